@@ -42,6 +42,27 @@ class C09(F.Spec):
             yield self.probe(rng, i)
         for i in range(60 if tier == "quick" else 600):
             yield self.scenario(rng, i)
+        # blinds whose tilting runs in short equal callbacks (1, 2, 3, 7 ms) with tilting times whose unit (time / 10^4) does not
+        # divide the interval: a remainder that is dropped per callback adds up over the tilting
+        for i in range(12 if tier == "quick" else 100):
+            tt = [1, 3, 1, 1][i % 4]     # (mode 2 shares one carried time between tilt and position: the recorded finding)
+            tms = [3000, 1500, 7000, 2300][i // 4 % 4]
+            sdt = [1000, 2000, 3000, 7000][(i // 2) % 4]
+            up = i % 2
+            full = rng.choice([20000, 30000])
+            p0 = 10100 if (tt == 3 or up) else rng.choice([100, 5000])
+            if tt == 3 and not up:
+                continue                                     # (mode 3 tilts only at the closed end: upwards from there)
+            t0 = 10100 if up else 100
+            run = int(tms * 0.9) * 1000
+            dur = ((full // 100) << 16) | (full // 100)
+            ops = ["boot 12345", "board rs1 0", "motor 1 0 1 1", "init", "calllog 1", "rstimes 0 %d %d %d %d" % (full, full, tms, tt),
+                   "rspos 0 %d %d" % (p0, t0), "rsmanual 0", "adv 1500", "rstick 0 10000", "rstick 0 0",
+                   "msg 110 " + set_value(7, 0, dur, [2 if up else 1]).hex()]
+            ops += ["rstick 0 %d" % sdt] * (run // sdt)
+            ops += ["msg 110 " + set_value(8, 0, dur, [0]).hex(), "rstick 0 10000", "rstick 0 10000"]
+            yield F.Case("tiltsmall%d" % i, ops, {"kind": "run", "tt": tt, "up": up, "opening": full, "closing": full, "tms": tms, "p0": p0,
+                                                  "t0": t0, "noshrink": True, "tags": ["kind:run", "tilt:%d" % tt, "small-intervals"]})
 
     def probe(self, rng, i):
         tt = rng.choice([0, 0, 1, 2, 3])
